@@ -12,6 +12,7 @@ package gobinlog
 import (
 	"context"
 	"errors"
+	"fmt"
 
 	"github.com/Breeze0806/mysql"
 )
@@ -58,7 +59,8 @@ type vMasterError struct {
 	msg  string
 }
 
-func (e *vMasterError) Error() string { return "master error" }
+// Error renders like the driver's MySQLError ("Error <number>: <message>").
+func (e *vMasterError) Error() string { return fmt.Sprintf("Error %d: %s", e.code, e.msg) }
 
 var errConnLost = errors.New("model: connection lost")
 var errModelClosed = errors.New("model: connection closed locally")
@@ -278,8 +280,12 @@ const (
 //	cause   stop cause (sc*)
 //	npk     number of transaction packets after the format description (0..2)
 //	ahead   0 lock-step hand-off, 1 master far ahead
-//	hmode   handler: 0 returns at once, 1 yields before returning
+//	hmode   handler: 0 returns at once, 1 yields before returning; 2: as 0, with an 18-byte master error message
 func VH_C05_Stream(cause, npk, ahead, hmode int) {
+	msgLen := 3
+	if hmode == 2 {
+		msgLen, hmode = 18, 0
+	}
 	sc := &vScript{ahead: ahead == 1}
 	sc.packets = append(sc.packets, vwRotate("bin.000001", 4), vwFDE())
 	for i := 0; i < npk; i++ {
@@ -291,7 +297,10 @@ func VH_C05_Stream(cause, npk, ahead, hmode int) {
 	case scERR:
 		sc.end = endERR
 		sc.errCode = vhU16()
-		sc.errMsg = vhBytes(3)
+		sc.errMsg = vhBytes(msgLen)
+		for i := range sc.errMsg {
+			vhAssume(sc.errMsg[i] >= 0x20 && sc.errMsg[i] < 0x7f) // printable message text
+		}
 	case scLost, scCancelAndLost:
 		sc.end = endLost
 	case scFactory:
@@ -505,6 +514,20 @@ func VH_C07_Attempts(attempts int) {
 		_ = err
 		s.Error()
 		vhQuiesce()
+		// every attempt announces checksum awareness on ITS connection before it requests the dump
+		calls := env.calls()
+		nset, ndump := 0, 0
+		for i, c := range calls {
+			if c.kind == 0 {
+				nset++
+				vhAssert(c.query == "SET @master_binlog_checksum=@@global.binlog_checksum", "checksum awareness is announced with the documented statement")
+			}
+			if c.kind == 1 {
+				ndump++
+				vhAssert(i > 0 && calls[i-1].kind == 0, "every dump request is preceded by the checksum announcement of the same attempt")
+			}
+		}
+		vhAssert(nset == a+1, "exactly one checksum announcement per attempt")
 		if fault == 3 {
 			vhAssert(err != nil, "a failed dump request makes Stream return an error")
 			vhAssert(len(requested) == before, "a failed dump request is not served")
